@@ -19,13 +19,16 @@ def budget_for(name, tier, table):
     return A, K, budget
 
 
-def multi(name, passes, judge, judge_concrete, per_step=None, final_ic=None, xsd_check=True, stop_on_fail=False):
-    """passes: list of dict(kinds, K, budget, fwd, alphabet).  Results merged; bounds listed per pass."""
+def multi(name, passes, judge, judge_concrete, per_step=None, final_ic=None, xsd_check=True, stop_on_fail=False, pre_step=None):
+    """passes: list of dict(kinds_by_depth | kinds, D | K, budget, fwd, alphabet).  Each pass is a breadth-first
+    exploration of reachable states (hist.explore_states).  Results merged; bounds listed per pass."""
     total = None
     for i, ps in enumerate(passes):
-        r = hist.explore(name, ps['K'], ps['budget'], ps['kinds'], judge, alphabet=ps.get('alphabet'),
-                         fwd=ps.get('fwd', (-1, 2)), final_ic=final_ic, per_step=per_step, xsd_check=xsd_check,
-                         trace_funcs=(i == 0), stop_on_fail=stop_on_fail)
+        kinds = ps.get('kinds')
+        kb = ps.get('kinds_by_depth') or (lambda d, kinds=kinds: kinds)
+        r = hist.explore_states(name, ps.get('D', ps.get('K')), ps['budget'], kb, judge, alphabet=ps.get('alphabet'),
+                                fwd=ps.get('fwd', (-1, 2)), final_ic=final_ic, per_step=per_step, xsd_check=xsd_check,
+                                trace_funcs=(i == 0), stop_on_fail=stop_on_fail, prefixes=ps.get('prefixes'), pre_step=pre_step)
         if total is None:
             total = r
             total['bounds'] = {'pass0': r['bounds']}
@@ -44,16 +47,13 @@ CORE = ['ADD', 'REMOVE', 'REPLACE', 'DOTSET', 'DOTNONE']
 
 
 def std_passes(name, tier, scale=1.0):
-    """wide pass: all kinds, K=2; deep pass: core kinds, K=3 (4 for tiny alphabets in thorough)"""
+    """one breadth-first pass over reachable states: all 8 operation kinds from states at depth <= 2 (quick) / 3 (thorough),
+    the five core kinds (ADD REMOVE REPLACE DOTSET DOTNONE) from deeper states; depth bound 8 (fixpoint for small types)"""
     red = hist.reduced_alphabet(name)
     full = lib.content_model(name).names
     if tier == 'quick':
-        n = len(red)
-        return [dict(kinds=hist.KINDS, K=2, budget=int(1000 * scale), fwd=(-1, 2), alphabet=red),
-                dict(kinds=CORE, K=3 if n <= 8 else 2, budget=int(2000 * scale), alphabet=red)]
-    n = len(full)
-    return [dict(kinds=hist.KINDS, K=3 if n <= 5 else 2, budget=int(12000 * scale), fwd=(-2, 4), alphabet=full),
-            dict(kinds=CORE, K=4 if n <= 6 else 3 if n <= 16 else 2, budget=int(28000 * scale), alphabet=full)]
+        return [dict(kinds_by_depth=lambda d: hist.KINDS if d <= 2 else CORE, D=8, budget=int(3500 * scale), fwd=(-1, 2), alphabet=red)]
+    return [dict(kinds_by_depth=lambda d: hist.KINDS if d <= 3 else CORE, D=10, budget=int(45000 * scale), fwd=(-2, 4), alphabet=full)]
 
 
 def oracle_stats(stats):
@@ -71,22 +71,36 @@ def oracle_stats(stats):
     lang.STATS.clear()
 
 
-def finish(r, name, judge_concrete, max_cands=60):
-    """reduce candidates on the real code, dedupe"""
+def _subseq(small, big):
+    it = iter(big)
+    return all(any(x == y for y in it) for x in small)
+
+
+def finish(r, name, judge_concrete, max_reduce=250):
+    """reduce candidates on the real code (shortest first; a candidate that contains an already reduced witness of the
+    same kind as a subsequence is attributed to it), dedupe"""
     out = {}
-    red_cache = {}
-    for c in r['cands']:
+    minimal = collections.defaultdict(list)
+    raw = sorted(r['cands'], key=lambda c: (len(c['witness'].get('ops', [])), repr(c['witness'])))
+    reduced = 0
+    for c in raw:
         if c['kind'] == 'hang':
             if not hist.hangs(name, c['witness']['ops']):
                 r['stats']['slow_paths_not_reproduced'] += 1      # machine load, not the library
                 continue
             out[repr(c['witness'])] = c
             continue
-        key0 = (c['kind'], repr(c['witness']))
-        if key0 in red_cache:
+        extra = {k: v for k, v in c['witness'].items() if k != 'ops'}
+        if any(_subseq(m, c['witness']['ops']) for m in minimal[(c['kind'], repr(extra))]):
+            r['stats']['cands_subsumed'] += 1
             continue
-        rc = hist.reduce_ops(name, c, judge_concrete)
-        red_cache[key0] = rc
+        if reduced >= max_reduce:
+            r['stats']['cands_not_reduced'] += 1
+            rc = c
+        else:
+            rc = hist.reduce_ops(name, c, judge_concrete)
+            reduced += 1
+        minimal[(c['kind'], repr(extra))].append(rc['witness']['ops'])
         k = (rc['kind'], repr(rc['witness']))
         if k not in out:
             out[k] = rc
